@@ -15,7 +15,7 @@ Decided on the continuation graph of publish_send_op (every instantiation, every
 """
 from engine import Verdict
 from facts import AnalysisBroken, Expr, callee_name, callee_cls, callee_q, strip, is_member_of_this
-from flow import contains, find, unwrap
+from flow import contains, find, unwrap, origin
 from reqops import op_paths, entry_points, qos_of, describe
 from c08 import root_packet, core
 from c07 import peval
@@ -140,6 +140,7 @@ def run(fx, tier):
                 key='C03:R-OWN:set_dup<-%s::%s(%s)' % (caller.cls, caller.n, caller.tag),
                 where='%s:%d' % (caller.path_file(), line))
     set_dup_rule(fx, v, 'C03')
+    pubrel_content_rule(fx, v, 'C03')
     # an acknowledgement that arrives before its write is reported complete is parked; it must neither be lost nor go stale (shared with C01)
     from c01 import fast_reply_rules
     if 'R-DOM' not in v.rules:
@@ -274,3 +275,36 @@ def dup_flag_rule(fx, v, prop):
                         'a PUBLISH whose earlier transmission was written is re-sent with DUP=1', key='%s:R-FLOW:%s:dup1' % (prop, state), where=end[1].where())
     if n < 8:
         raise AnalysisBroken('only %d PUBLISH send paths found' % n)
+
+
+def pubrel_content_rule(fx, v, prop='C03', rid='R-FLOW'):
+    """the PUBREL of a QoS 2 publish: built by encode_pubrel from the Packet Identifier of the PUBLISH it belongs to, reason code
+    0 (success) and no properties - at every site that builds one (shared with C17: "says what was asked")."""
+    n = 0
+    for f in fx.fns:
+        if f.cls != 'publish_send_op':
+            continue
+        for b, i, l, c in f.calls():
+            if callee_name(c) != 'of' or callee_cls(c) != 'control_packet':
+                continue
+            args = [origin(f, a) for a in c.get('args', [])]
+            k = [j for j, a in enumerate(args) if isinstance(core(a), dict) and core(a).get('k') == 'ref' and core(a).get('n') == 'encode_pubrel']
+            if not k or len(args) < k[0] + 4:
+                continue
+            n += 1
+            pid, rc, props = core(args[k[0] + 1]), core(args[k[0] + 2]), core(args[k[0] + 3])
+            pid_ok = isinstance(pid, dict) and pid.get('k') == 'call' and callee_name(pid) == 'packet_id' and callee_cls(pid) == 'control_packet' \
+                and contains(pid.get('obj'), lambda m: m.get('k') == 'ref' and m.get('dk') == 'param')
+            rc_ok = isinstance(rc, dict) and (rc.get('c') == 0 or rc.get('v') == 0) and rc.get('k') in ('lit', 'icast', 'ref')
+            def empty_props(x):
+                if not isinstance(x, dict):
+                    return False
+                if x.get('k') in ('init', 'ctor'):
+                    return all(empty_props(core(y)) for y in x.get('args', []) if not (isinstance(y, dict) and y.get('k') == 'defarg'))
+                return False
+            pr_ok = empty_props(props)
+            v.check(pid_ok and rc_ok and pr_ok, rid, 'publish_send_op::%s%s:PUBREL built@%d [%s]' % (f.tag or f.n, f.inst()[:25], l, f.tu),
+                    'PUBREL carries the identifier of the PUBLISH it follows (%s), reason code 0 (%s) and no properties (%s)' % (pid_ok, rc_ok, pr_ok),
+                    key=prop + ':R-FLOW:publish_send_op:pubrel-content', where='%s:%d' % (f.path_file(), l))
+    if n == 0 and not v.violations:
+        raise AnalysisBroken('publish_send_op: no site building a PUBREL found')
